@@ -1155,3 +1155,77 @@ func (ls *LockSets) HeldField(i ssa.Instruction, typ, field string) (string, boo
 	}
 	return "", false
 }
+
+// ---------------------------------------------------------------------------
+// Composite literals
+
+// Lit is a struct composite literal built into a local (Alloc "complit").
+type Lit struct {
+	Alloc  *ssa.Alloc
+	Fields map[string]ssa.Value // explicitly stored fields
+}
+
+// StructLits finds the composite literals of named struct type `typ` in fn.
+func StructLits(fn *ssa.Function, typ string) []Lit {
+	var out []Lit
+	Instrs(fn, func(i ssa.Instruction) {
+		a, ok := i.(*ssa.Alloc)
+		if !ok {
+			return
+		}
+		n := namedOf(a.Type())
+		if n == nil || n.Obj().Name() != typ {
+			return
+		}
+		if _, ok := n.Underlying().(*types.Struct); !ok {
+			return
+		}
+		l := Lit{Alloc: a, Fields: map[string]ssa.Value{}}
+		if refs := a.Referrers(); refs != nil {
+			for _, r := range *refs {
+				fa, ok := r.(*ssa.FieldAddr)
+				if !ok {
+					continue
+				}
+				for _, u := range *fa.Referrers() {
+					if st, ok := u.(*ssa.Store); ok && st.Addr == fa {
+						l.Fields[fieldName(fa.X.Type(), fa.Field)] = st.Val
+					}
+				}
+			}
+		}
+		out = append(out, l)
+	})
+	return out
+}
+
+// ClosureArg returns the function of a MakeClosure (or plain function) value.
+func ClosureArg(v ssa.Value) *ssa.Function {
+	switch x := StripConv(v).(type) {
+	case *ssa.MakeClosure:
+		f, _ := x.Fn.(*ssa.Function)
+		return f
+	case *ssa.Function:
+		return x
+	}
+	return nil
+}
+
+// FreeVarNamed returns fn's free variable called name (nil if none).
+func FreeVarNamed(fn *ssa.Function, name string) *ssa.FreeVar {
+	for _, fv := range fn.FreeVars {
+		if fv.Name() == name {
+			return fv
+		}
+	}
+	return nil
+}
+
+// ConstString returns the string value of an SSA constant.
+func ConstString(v ssa.Value) (string, bool) {
+	c, ok := v.(*ssa.Const)
+	if !ok || c.Value == nil || c.Value.Kind() != constant.String {
+		return "", false
+	}
+	return constant.StringVal(c.Value), true
+}
